@@ -244,7 +244,14 @@ pub fn replay_rows(tlc_out: &str, bin: &str, rep: &mut Report) {
         let mut dead = false;
         let desc: Vec<String> = reqs.iter().map(|r| format!("{} {} {:?}", r["k"].as_str().unwrap_or(""), r["uri"].as_str().unwrap_or(""), text_of(&r["text"]))).collect();
         for r in &reqs {
-            let uri = format!("file:///r{}/{}", n, r["uri"].as_str().unwrap_or(""));
+            // two documents are two documents even when their URIs share a path and differ only in
+            // scheme and query (what an editor opens for a diff view): every other row spells them so
+            let name = r["uri"].as_str().unwrap_or("");
+            let uri = if n % 2 == 1 {
+                if name == "u1" { format!("file:///r{}/doc.bas", n) } else { format!("git:/r{}/doc.bas?ref=HEAD&{}", n, name) }
+            } else {
+                format!("file:///r{}/{}", n, name)
+            };
             let text = text_of(&r["text"]);
             let k = r["k"].as_str().unwrap_or("");
             let reply = match k {
@@ -302,7 +309,7 @@ pub fn record(seed: u64, n: usize, bin: &str, out: &str, rep: &mut Report) {
     let mut rng = StdRng::seed_from_u64(seed);
     let mut f = std::io::BufWriter::new(std::fs::File::create(out).expect("create trace"));
     let mut server = Server::start_with(bin, seed);
-    let uris = ["file:///a.bas", "file:///b.bas", "file:///c%20d.bas"];
+    let uris = ["file:///a.bas", "file:///b.bas", "file:///c%20d.bas", "git:/a.bas?ref=HEAD", "untitled:a.bas"];
     let mut open: std::collections::HashMap<&str, String> = Default::default();
     writeln!(f, "{}", json!({"k": "reset", "uri": "", "text": [], "diags": [], "toks": [], "err": false})).unwrap();
     for _ in 0..n {
